@@ -446,6 +446,33 @@ func cliSearch(c *fw.Ctx) {
 			}
 			cliCacheTwin(c, env, "cli:search", enc, sib, args, stdin.Bytes())
 		}
+		if ok && qarg[0] != '@' {
+			// the same command line after a search whose query file, under the
+			// same name, held the same letters cut into records differently
+			// (all queries run together; or the first one cut in two).
+			mine, _ := os.ReadFile(qarg)
+			var oth bytes.Buffer
+			if len(queries) > 1 {
+				fmt.Fprintf(&oth, ">q0\n%s\n", bytes.Join(queries, nil))
+			} else {
+				h := len(queries[0]) / 2
+				fmt.Fprintf(&oth, ">q0\n%s\n>q1\n%s\n", queries[0][:h], queries[0][h:])
+			}
+			ref := env.Run(append(append([]string{}, args...), "--no-cache"), stdin.Bytes(), nil, 60*time.Second)
+			env.ResetCache()
+			os.WriteFile(qarg, oth.Bytes(), 0644)
+			env.Run(args, stdin.Bytes(), nil, 60*time.Second)
+			os.WriteFile(qarg, mine, 0644)
+			for pass := 0; pass < 2 && !ref.TimedOut; pass++ {
+				got := env.Run(args, stdin.Bytes(), nil, 60*time.Second)
+				if got.TimedOut || got.Exit != ref.Exit || !bytes.Equal(got.Stdout, ref.Stdout) {
+					c.Violate("cli:search:cached-run-differs-after-other-query-file", enc+fmt.Sprintf("  (cache on, pass %d, after the same command line with the query file holding %q)", pass+1, oth.String()),
+						fmt.Sprintf("exit %d and the %d bytes of the --no-cache run", ref.Exit, len(ref.Stdout)), fmt.Sprintf("exit %d, %d bytes: %s", got.Exit, len(got.Stdout), clipB(got.Stdout, 300)))
+					break
+				}
+			}
+			c.Bucket("cli:search cache-on after another query file")
+		}
 		if qarg[0] != '@' {
 			os.Remove(qarg)
 		}
@@ -692,6 +719,23 @@ func cliRepair(c *fw.Ctx) {
 		gb := seqio.GenBank{Fields: seqio.GenBankFields{LocusName: "REP", Molecule: gts.DNA, Topology: gts.Linear, Division: "SYN",
 			Date: seqio.Date{Year: 2022, Month: 5, Day: 6}, Definition: "repair", Accession: "REP1", Version: "REP1.1"},
 			Table: gen.SortedTable(tab), Origin: seqio.NewOrigin(b)}
+		if rr.Intn(3) == 0 && len(tab) > 2 {
+			// a table listed as an annotator left it: the source first, the other
+			// features in no particular order.
+			var listed []gts.Feature
+			for _, f := range tab {
+				if f.Key == "source" {
+					listed = append(listed, f)
+				}
+			}
+			for _, f := range tab {
+				if f.Key != "source" {
+					listed = append(listed, f)
+				}
+			}
+			gb.Table = listed
+			c.Bucket("cli:repair table not in location order")
+		}
 		cut := 1 + rr.Intn(L-1)
 		if rr.Intn(2) == 0 {
 			// prefer a cut that falls inside no feature but the source.
